@@ -88,13 +88,23 @@ type opKey struct {
 	RC  int
 }
 
+// catChange: an operand harvested earlier differed from its snapshot after a later decode.
+type catChange struct {
+	od      *opnd
+	change  string
+	culprit string // the instruction whose decode changed it
+}
+
 type catalogue struct {
-	all     []*opnd
-	byKey   map[opKey][]*opnd
-	byInst  map[string]*opnd // instHex + "/" + field
-	rcs     [numKinds][]int  // RegCounts harvested per kind
-	others  []*opnd
-	sources map[string]int
+	specials []*opSnap // snapshots of the non-general-purpose operands harvested so far
+	specOd   []*opnd
+	changes  []catChange
+	all      []*opnd
+	byKey    map[opKey][]*opnd
+	byInst   map[string]*opnd // instHex + "/" + field
+	rcs      [numKinds][]int  // RegCounts harvested per kind
+	others   []*opnd
+	sources  map[string]int
 }
 
 // ---- GCN3 encoders (only what is needed to harvest operands) ----
@@ -234,6 +244,16 @@ func (c *catalogue) harvest(d *insts.Disassembler, mnem string, words []uint32, 
 	if err != nil {
 		return fmt.Errorf("%s %x: decode error %v", mnem, words, err)
 	}
+	// an operand object must not change after Decode returned: re-check what was harvested before
+	for i, sn := range c.specials {
+		if sn.dirty {
+			continue
+		}
+		if ch := sn.changed(); ch != "" {
+			sn.dirty = true
+			c.changes = append(c.changes, catChange{c.specOd[i], ch, fmt.Sprintf("%s %x", mnem, words)})
+		}
+	}
 	if in.InstName != mnem {
 		return fmt.Errorf("%x decodes to %s, intended %s", words, in.InstName, mnem)
 	}
@@ -245,12 +265,19 @@ func (c *catalogue) harvest(d *insts.Disassembler, mnem string, words []uint32, 
 	if !ok {
 		return fmt.Errorf("%s %x: field %s is not a register operand", mnem, words, field)
 	}
+	if k == wk && idx == wi && op.RegCount != wantRC && len(c.changes) > 0 {
+		return nil // operand objects are being modified by later decodes (reported by the caller); this harvest is one more victim
+	}
 	if k != wk || idx != wi || op.RegCount != wantRC {
 		return fmt.Errorf("%s %x field %s: decoder gives %s rc=%d, intended kind=%s idx=%d rc=%d",
 			mnem, words, field, op.Register.Name, op.RegCount, wk, wi, wantRC)
 	}
 	o := &opnd{ID: len(c.all), Op: op, Words: words, Mnem: mnem, Field: field, Kind: k, Idx: idx, RC: op.RegCount, Name: op.Register.Name}
 	c.all = append(c.all, o)
+	if k != kSGPR && k != kVGPR {
+		c.specials = append(c.specials, snapOf(op, mnem+"."+field, len(c.all)))
+		c.specOd = append(c.specOd, o)
+	}
 	key := opKey{k, idx, o.RC}
 	if k == kOther {
 		c.others = append(c.others, o)
@@ -378,7 +405,7 @@ func buildCatalogue() (*catalogue, error) {
 		}
 	}
 	if firstErr != nil {
-		return nil, firstErr
+		return c, firstErr // the caller still wants c.changes
 	}
 	seen := [numKinds]map[int]bool{}
 	for k, v := range c.byKey {
